@@ -18,6 +18,8 @@ Clauses(rec) ==
   (IF mons \cap {3, 4, 9} # {} THEN {"C06:kill-or-waitpid-on-foreign-pid"} ELSE {}) \cup
   (IF mons \cap {6, 7} # {} THEN {"C14:use-of-bad-descriptor-or-child-side-crash"} ELSE {}) \cup
   \* a poll that could not get its working memory says so: "nothing left to poll" (or an event) is a statement about the streams
+  \* a reap that failed produced no status: the wait or stop it struck reports an error, never an exit status
+  (IF rec.hitfn \in {"wait", "stop"} /\ rec.gkind = 10 /\ rec.hitr >= 0 THEN {"C01:status-reported-although-the-reap-failed"} ELSE {}) \cup
   (IF rec.hitfn = "poll" /\ rec.gkind = 20 /\ rec.hitr # -12 THEN {"C09:poll-reports-something-else-than-out-of-memory"} ELSE {})
 
 VARIABLES l, bad
